@@ -149,6 +149,23 @@ func main() {
 	}
 	bw := bufio.NewWriterSize(w, 1<<20)
 	ctx := &Ctx{Tier: *tier, Seed: *seed, Rng: rand.New(rand.NewSource(*seed)), w: bw, stats: map[string]int{}, Args: flag.Args()[1:], Start: time.Now()}
+	// stall detector: a goroutine that sleeps 100 ms at a time notices when this process was not running (host paused for a
+	// snapshot, machine overloaded). Every deadline of the harness is read off the same clock, so a run during which it fires
+	// has void timing verdicts: bin/check repeats the family once when a failing run reports a stall.
+	go func() {
+		last := time.Now()
+		for {
+			time.Sleep(100 * time.Millisecond)
+			now := time.Now()
+			if d := now.Sub(last); d > 2*time.Second {
+				ctx.Diag("stall: the harness process did not run for %v (after %v of the run): its timing verdicts are void", d.Round(100*time.Millisecond), last.Sub(ctx.Start).Round(time.Second))
+				ctx.mu.Lock()
+				ctx.w.Flush()
+				ctx.mu.Unlock()
+			}
+			last = now
+		}
+	}()
 	f(ctx)
 	keys := make([]string, 0, len(ctx.stats))
 	for k := range ctx.stats {
